@@ -39,6 +39,27 @@ impl TokenStore for TokenMemoryCache {
     }
 }
 
+#[cfg(feature = "quinn_rs_quinn_verif")]
+impl TokenMemoryCache {
+    /// verification hook: (entries from most to least recently used, sorted keys of `lookup`,
+    /// whether every `lookup` value points at the slab entry of that name)
+    pub(crate) fn verif_state(&self) -> (Vec<(String, Vec<Bytes>)>, Vec<String>, bool) {
+        let s = self.0.lock().unwrap();
+        let lru: Vec<(String, Vec<Bytes>)> = s
+            .lru
+            .iter()
+            .map(|(_, e)| (e.server_name.to_string(), e.tokens.iter().cloned().collect()))
+            .collect();
+        let mut keys: Vec<String> = s.lookup.keys().map(|k| k.to_string()).collect();
+        keys.sort();
+        let consistent = s
+            .lookup
+            .iter()
+            .all(|(k, &slot)| s.lru.iter().any(|(i, e)| i == slot && e.server_name == *k));
+        (lru, keys, consistent)
+    }
+}
+
 /// Defaults to a maximum of 256 servers and 2 tokens per server
 impl Default for TokenMemoryCache {
     fn default() -> Self {
